@@ -13,3 +13,60 @@ package astdiff
 //@   trusted API-level summary; reports regions to cl (go-intervals sets: dependency state, not modelled) and builds a fresh snapshot
 //@   assigns nothing
 //@   ensures s2 != nil
+
+// Comments attached to a node that lie entirely before it / start at or after its end (a trailing
+// comment that abuts the node counts as trailing).
+//@ func (f changeFinder) commentsFor(n) (before, after)
+//@   requires n != nil
+//@   requires typing: forall k int {n.Comments[k]} :: 0 <= k && k < len(n.Comments) ==> n.Comments[k] != nil
+//@   unfold beforeLen(n.Comments, n.pos, 0) == 0 && afterLen(n.Comments, n.end, 0) == 0
+//@   assigns nothing
+//@   ensures [C17] leading-comments: len(before) == beforeLen(n.Comments, n.pos, len(n.Comments))
+//@   ensures [C17] trailing-comments: len(after) == afterLen(n.Comments, n.end, len(n.Comments))
+//@   loop 0
+//@     unfold beforeLen(n.Comments, n.pos, #k + 1) == beforeLen(n.Comments, n.pos, #k) + ite(cgEnd(n.Comments[#k]) <= n.pos, len(n.Comments[#k].List), 0)
+//@     unfold afterLen(n.Comments, n.end, #k + 1) == afterLen(n.Comments, n.end, #k) + ite(cgPos(n.Comments[#k]) >= n.end, len(n.Comments[#k].List), 0)
+//@     invariant len(before) == beforeLen(n.Comments, n.pos, #k) && len(after) == afterLen(n.Comments, n.end, #k)
+//@     invariant (before.arr == 0 || fresh(before.arr)) && (after.arr == 0 || fresh(after.arr))
+
+//@ func (f changeFinder) unchanged(from, to)
+//@   requires from != nil && to != nil
+//@   assigns to.Comments
+//@   ensures [C17] comments-carried-over: to.Comments == from.Comments
+
+//@ func (v *value) Pos
+//@   inline
+//@ func (v *value) End
+//@   inline
+
+//@ func (f changeFinder) changed
+//@   assigns nothing
+
+//@ func (f changeFinder) Walk(from, to) (equal)
+//@   requires from != nil && to != nil
+//@   assigns allof("F.S_astdiff_value.Comments")
+
+//@ func compareNodes(from, to) (r)
+//@   trusted similarity measure used only to align siblings (summarised)
+//@   assigns nothing
+
+//@ func minPos
+//@   inline
+//@ func maxPos
+//@   inline
+
+// Siblings are aligned by an edit script; an identical pair keeps its comment association, a modified
+// pair is walked inside its own region, a deleted sibling marks its own region as changed.
+//@ func (f changeFinder) walkSlice(from, to) (equal)
+//@   requires from != nil && to != nil
+//@   requires typing: forall k int {from.Children[k]} :: 0 <= k && k < len(from.Children) ==> from.Children[k] != nil
+//@   requires typing: forall k int {to.Children[k]} :: 0 <= k && k < len(to.Children) ==> to.Children[k] != nil
+//@   requires typing: forall k int {from.Children[k]} :: 0 <= k && k < len(from.Children) ==> forall c int {from.Children[k].Comments[c]} :: 0 <= c && c < len(from.Children[k].Comments) ==> from.Children[k].Comments[c] != nil
+//@   at call (astdiff.changeFinder).unchanged assert [C17] identical-siblings-keep-their-comments: arg1 == from.Children[i] && arg2 == to.Children[j]
+//@   assigns allof("F.S_astdiff_value.Comments")
+//@   loop 0
+//@     decreases len(from.Children) - i
+//@   loop 1
+//@     invariant regions.arr != 0 || len(from.Children) == 0
+//@   loop 2
+//@     invariant 0 <= i && 0 <= j
